@@ -136,14 +136,18 @@ def _compare_annotated_types(
     """Compare Annotated types including metadata."""
     incoming_primary, *incoming_metadata = get_args(incoming_type)
     required_primary, *required_metadata = get_args(required_type)
+    incoming_array_element_type = _extract_array_element_type(incoming_metadata)
+    required_array_element_type = _extract_array_element_type(required_metadata)
+    if incoming_array_element_type is not None and required_array_element_type is None:
+        # Keep the element type of the incoming array: the required primary type
+        # might contain `Array`s itself (e.g., `Annotated[Array[int] | None, ...]`)
+        return is_type_compatible(incoming_type, required_primary, memo)
 
     # Recursively check the primary types
     if not is_type_compatible(incoming_primary, required_primary, memo):
         return False
 
     # Compare metadata (extras)
-    incoming_array_element_type = _extract_array_element_type(incoming_metadata)
-    required_array_element_type = _extract_array_element_type(required_metadata)
     if incoming_array_element_type is not None and required_array_element_type is not None:
         return is_type_compatible(incoming_array_element_type, required_array_element_type, memo)
     return True
